@@ -148,7 +148,10 @@ def _handle_ConnectionUp (event):
       con.send(pm)
     _invalidate_ports(con.dpid)
 
-  if _hold_down:
+  if _hold_down or _noflood_by_default:
+    # (With flooding off by default, somebody has to turn it back on for
+    # the ports that turn out to face hosts.  Link events do that -- but a
+    # switch without any links to other switches never causes one.)
     t = Timer(core.openflow_discovery.send_cycle_time + 1, _update_tree,
               kw={'force_dpid':event.dpid})
 
